@@ -126,6 +126,9 @@ def _dense_case(sh, cI, li_obj, img_bits, shp, vt, conn8, full_oracle=True):
     if nrets[0] != nrets[1]:
         sh.violation("connectedpixels:poison-dependent-count", case, {"n": nrets})
         return
+    if not np.array_equal(data, np.where(mask, np.float32(hi), np.float32(lo)).astype(np.float32)):
+        sh.violation("connectedpixels:image-modified", case, {"data": data})
+        return
     ok = _check_labels(sh, "connectedpixels", case, data, thr, conn8, labs, nrets[0], want, n_want)
     if ok and conn8 and li_obj is not None:
         li_obj.blim[:] = POISONS[0]
